@@ -16,6 +16,7 @@ from ..core import AnalysisError, norm, short
 from ..callgraph import CallGraph
 from ..loader import ClassInfo
 from .. import effects
+from ..astutil import stmts_of as stmts_of_
 
 CORE_MODS = ['clastic.application', 'clastic.route', 'clastic.sinter', 'clastic.middleware.core', 'clastic.errors',
              'clastic.utils', 'clastic._contextual_errors']
@@ -175,6 +176,9 @@ class RequestPath(object):
         vals = assigned_value(fi.node, name)
         if not vals:
             return False
+        vals = [x for x in vals if not isinstance(x[1], ast.AugAssign)]      # ``x op= v`` keeps x's object or builds a new one
+        if not vals:
+            return False
         for st, v, idx in vals:
             if idx == 'exc':
                 continue
@@ -186,8 +190,25 @@ class RequestPath(object):
                 continue
             if idx is None and isinstance(v, ast.Constant):
                 continue
+            if idx is None and isinstance(v, (ast.Attribute, ast.Subscript)) and self._part_of_request_local(fi, v, params, depth):
+                continue     # names a part of a per-request object: the same judgement as for a store through the chain itself
             return False
         return True
+
+    def _part_of_request_local(self, fi, v, params, depth):
+        """``v`` is an attribute / item chain (no call) rooted at ``self`` of a per-request class, at a name with a
+        per-request role, or at a local that itself belongs to this activation."""
+        ch = effects.chain_of(v)
+        if not ch or len(ch) < 2 or '()' in ch:
+            return False
+        r = ch[0]
+        if r in ('self', 'cls'):
+            return self.is_per_request_class(self.cg.enclosing_class(fi))
+        if r in self.shared_aliases(fi):
+            return False
+        if r in effects.fresh_locals(self.repo, fi) or r in REQUEST_LOCAL_NAMES:
+            return True
+        return r not in params and self._activation_local(fi, r, params, depth + 1)
 
     def _iterates_activation_container(self, fi, it, params, depth):
         """``for x in <it>``: every container the iterable draws from (looking through enumerate / zip / sorted /
@@ -273,31 +294,150 @@ class RequestPath(object):
         fi._shared_aliases = out
         return out
 
+    # ---- ownership of what a per-request object holds ------------------------------------------------------------
+    def _related(self, a, b):
+        """An instance can run methods of both classes: one is a base of the other, or an analysed class derives from both."""
+        mro = self.repo.mro
+        if a is b or a in mro(b) or b in mro(a):
+            return True
+        return any(a in mro(c) and b in mro(c) for c in self.cg.classes)
+
+    def _instance_views(self, classes):
+        """[(FuncInfo, root name, class)] -- the places where an instance of one of ``classes`` is at hand under a name:
+        ``self`` in the methods of the class, and in every other function of the analysed modules a name whose role is
+        that class (callgraph.ROLE_TABLE) or a local that is only ever assigned a constructor call of the class."""
+        from ..callgraph import ROLE_TABLE
+        from ..astutil import assigned_value
+        views = []
+        for ci in classes:
+            for m in ci.methods.values():
+                views.append((m, 'self', ci))
+        for fi in self.cg.funcs:
+            if isinstance(fi.node, ast.Lambda):
+                continue
+            names = set(fi.params())
+            for n in ast.walk(fi.node):
+                if isinstance(n, ast.Name):
+                    names.add(n.id)
+            for name in sorted(names - {'self', 'cls'}):
+                roles = [c for c in classes if (c.mod.name, c.name) in ROLE_TABLE.get(name, [])]
+                if not roles and name not in fi.params():
+                    vals = assigned_value(fi.node, name)
+                    ctor = []
+                    for st, v, idx in vals:
+                        k = None
+                        if idx is None and isinstance(v, ast.Call) and isinstance(v.func, ast.Name):
+                            kind, m_, obj = self.repo.resolve(fi.mod, v.func.id)
+                            k = obj if kind == 'class' and obj in classes else None
+                        ctor.append(k)
+                    if ctor and all(k is not None for k in ctor):
+                        roles = sorted(set(ctor), key=lambda c: c.name)
+                for c in roles:
+                    views.append((fi, name, c))
+        return views
+
     def field_freshness(self):
-        """For classes instantiated per request: a field that is mutated in place somewhere must only ever be
-        *assigned* freshly allocated objects -- otherwise the per-request object would alias (and then mutate)
-        something long-lived handed to it.  -> [(ClassInfo, field, assign stmt, ok, why)]"""
+        """Ownership rule for classes instantiated per request: the object a field holds may be mutated in place
+        (mutating method call, item / attribute store through the field, ``field op= v``, the same through a local
+        that names the field's object) only if every value ever stored into that field is an object allocated by the
+        storing activation -- otherwise the per-request object adopts (aliases) something longer-lived handed to it
+        and a later in-place update rewrites that.  The field is looked at wherever an instance is at hand: ``self``
+        in the methods of the class and its relatives, role-named / constructor-assigned names elsewhere.  A field
+        whose only in-place updates are augmented assignments may also hold values that can only be immutable
+        (``self.n = n0`` ... ``self.n += 1`` re-binds).  -> [(ClassInfo, FuncInfo, field, assign stmt, ok)]"""
+        from ..astutil import assigned_value
+        classes = self.per_request + [c for c in self.cg.classes if any(pr in self.repo.mro(c) for pr in self.per_request) and c not in self.per_request]
+        muts, asgs = [], []          # (class, field, FuncInfo, node, hard) / (class, field, FuncInfo, stmt, value)
+        seen_asg = set()
+        for fi, root, ci in self._instance_views(classes):
+            # locals that name the object held by a field: every assignment is ``<root>.<field>[...]`` without a call
+            alias = {}
+            for name in set(n.id for n in ast.walk(fi.node) if isinstance(n, ast.Name) and isinstance(n.ctx, ast.Store)):
+                if name == root:
+                    continue
+                vals = [x for x in assigned_value(fi.node, name) if not isinstance(x[1], ast.AugAssign)]
+                fields = set()
+                for st, v, idx in vals:
+                    ch = effects.chain_of(v) if idx is None and isinstance(v, (ast.Attribute, ast.Subscript)) else None
+                    fields.add(ch[1] if ch and len(ch) >= 2 and ch[0] == root and '()' not in ch and ch[1] != '[]' else None)
+                if vals and len(fields) == 1 and None not in fields:
+                    alias[name] = fields.pop()
+            for e in effects.effects_in(fi.node, aug_names=True):
+                ch = e.chain or []
+                if not ch:
+                    continue
+                aug = isinstance(e.node, ast.AugAssign)
+                if ch[0] == root and len(ch) >= 2 and ch[1] not in ('[]', '()'):
+                    if e.kind == 'mutcall' or (e.kind in ('store', 'delete') and len(ch) > 2):
+                        muts.append((ci, ch[1], fi, e.node, True))
+                    elif aug and e.kind == 'store' and len(ch) == 2 and not effects.aug_rebinds(e.node):
+                        muts.append((ci, ch[1], fi, e.node, False))
+                elif ch[0] in alias:
+                    if e.kind == 'mutcall' or (e.kind in ('store', 'delete') and len(ch) >= 2):
+                        muts.append((ci, alias[ch[0]], fi, e.node, True))
+                    elif e.kind == 'augname' and not effects.aug_rebinds(e.node):
+                        muts.append((ci, alias[ch[0]], fi, e.node, False))
+            for st in stmts_of_(fi.node):
+                pairs = []
+                if isinstance(st, ast.Assign):
+                    for t0 in st.targets:
+                        if isinstance(t0, (ast.Tuple, ast.List)):
+                            plain = effects._plain_unpack(st, st.value)
+                            for i, t in enumerate(t0.elts):
+                                tt = t.value if isinstance(t, ast.Starred) else t
+                                for x in effects._targets(tt):
+                                    pairs.append((x, st.value.elts[i] if plain and x is t else None))
+                        else:
+                            pairs.append((t0, st.value))
+                elif isinstance(st, ast.AnnAssign) and st.value is not None:
+                    pairs.append((st.target, st.value))
+                elif isinstance(st, (ast.For, ast.AsyncFor)):
+                    pairs.extend((t, None) for t in effects._targets(st.target))
+                elif isinstance(st, (ast.With, ast.AsyncWith)):
+                    for it in st.items:
+                        if it.optional_vars is not None:
+                            pairs.extend((t, None) for t in effects._targets(it.optional_vars))
+                elif isinstance(st, ast.Expr) and isinstance(st.value, ast.Call) and isinstance(st.value.func, ast.Name) and \
+                        st.value.func.id == 'setattr' and len(st.value.args) == 3 and isinstance(st.value.args[0], ast.Name) and \
+                        isinstance(st.value.args[1], ast.Constant) and isinstance(st.value.args[1].value, str):
+                    c = st.value
+                    pairs.append((ast.Attribute(value=c.args[0], attr=c.args[1].value, ctx=ast.Store()), c.args[2]))
+                for t, v in pairs:
+                    if isinstance(t, ast.Attribute) and isinstance(t.value, ast.Name) and t.value.id == root and (id(st), t.attr) not in seen_asg:
+                        seen_asg.add((id(st), t.attr))
+                        asgs.append((ci, t.attr, fi, st, v))
         out = []
-        from ..astutil import stmts_of
-        for ci in self.per_request + [c for c in self.cg.classes if any(pr in self.repo.mro(c) for pr in self.per_request) and c not in self.per_request]:
-            mutated = {}
-            for m in ci.methods.values():
-                for e in effects.effects_in(m.node):
-                    ch = e.chain or []
-                    if len(ch) >= 2 and ch[0] == 'self' and (e.kind == 'mutcall' or len(ch) > 2):
-                        mutated.setdefault(ch[1], []).append(e)
-            for m in ci.methods.values():
-                for s in stmts_of(m.node):
-                    if isinstance(s, ast.Assign):
-                        for t in s.targets:
-                            if isinstance(t, ast.Attribute) and isinstance(t.value, ast.Name) and t.value.id == 'self' and t.attr in mutated:
-                                v = s.value
-                                fresh = isinstance(v, (ast.List, ast.Dict, ast.Set, ast.Tuple, ast.ListComp, ast.DictComp, ast.SetComp,
-                                                       ast.Constant, ast.BinOp, ast.JoinedStr)) or \
-                                    (isinstance(v, ast.Call) and isinstance(v.func, ast.Name) and
-                                     (v.func.id in effects.FRESH_CALLS or self.repo.resolve(ci.mod, v.func.id)[0] == 'class'))
-                                out.append((ci, m, t.attr, s, fresh))
+        for ci, field, fi, st, v in asgs:
+            ms = [m for m in muts if m[1] == field and self._related(ci, m[0])]
+            if not ms:
+                continue
+            hard = any(m[4] for m in ms)
+            ok = v is not None and (self._fresh_value(fi, v, st) or (not hard and effects.known_immutable(fi, v)))
+            rec = st
+            if not isinstance(getattr(st, 'value', None), ast.expr) or (isinstance(st, ast.Assign) and v is not st.value):
+                # report the stored value itself (element of an unpacking, argument of setattr, loop target)
+                rec = ast.copy_location(ast.Assign(targets=[ast.Attribute(value=ast.Name(id='self', ctx=ast.Load()), attr=field, ctx=ast.Store())],
+                                                   value=v if v is not None else ast.Name(id='<unpacked>', ctx=ast.Load())), st)
+            out.append((ci, fi, field, rec, ok))
         return out
+
+    def _fresh_value(self, fi, v, st):
+        """``v`` evaluated at statement ``st`` of fi is an object allocated in this activation: a display / comprehension /
+        constant / operator result, a container-constructor or class call, an analysed function that returns a fresh
+        object, or a local all of whose definitions reaching ``st`` are such."""
+        fresh = effects.fresh_locals(self.repo, fi)
+        if isinstance(v, ast.Name):
+            if v.id in fresh:
+                return True
+            if v.id in fi.params():
+                return False
+            try:
+                return effects.fresh_at(self.repo, fi, effects.Flow(fi), v.id, st)
+            except AnalysisError:
+                return False
+        if isinstance(v, ast.Call) and isinstance(v.func, ast.Name) and self.repo.resolve(fi.mod, v.func.id)[0] == 'class':
+            return True
+        return effects._is_fresh_expr(self.repo, fi, v, None, fresh)
 
     def effects(self):
         """[(FuncInfo, Effect, class, reason, path)] for every reachable function of the core modules."""
@@ -306,7 +446,9 @@ class RequestPath(object):
             if fi.mod.external:
                 continue
             fresh = effects.fresh_locals(self.repo, fi)
-            for e in effects.effects_in(fi.node):
+            for e in effects.effects_in(fi.node, aug_names=True):
+                if e.kind == 'augname' and (effects.aug_rebinds(e.node) or effects.known_immutable(fi, e.target)):
+                    continue         # re-binds a local that holds a number / string / tuple: no object is mutated
                 cls, why = self.classify(fi, e, fresh)
                 out.append((fi, e, cls, why, path))
         return out
